@@ -471,9 +471,11 @@ func retype(files []protoreflect.FileDescriptor, path string) (protoreflect.File
 }
 
 type reflected struct {
-	obj   *schema_j5pb.Object
-	err   error
-	panic any
+	obj     *schema_j5pb.Object
+	enum    *schema_j5pb.Enum // the enum the sentinel property zz refers to
+	isOneof bool
+	err     error
+	panic   any
 }
 
 func reflectObject(md protoreflect.MessageDescriptor) (r reflected) {
@@ -487,9 +489,28 @@ func reflectObject(md protoreflect.MessageDescriptor) (r reflected) {
 		r.err = err
 		return
 	}
-	r.obj = s.ToJ5Root().GetObject()
+	root := s.ToJ5Root()
+	r.obj = root.GetObject()
+	if o := root.GetOneof(); o != nil {
+		// a oneof root has the same shape: name, description, properties
+		r.obj = &schema_j5pb.Object{Name: o.Name, Description: o.Description, Properties: o.Properties}
+		r.isOneof = true
+	}
 	if r.obj == nil {
-		r.err = fmt.Errorf("root schema is not an object")
+		r.err = fmt.Errorf("root schema is neither an object nor a oneof")
+		return
+	}
+	var ps j5schema.PropertySet
+	switch st := s.(type) {
+	case *j5schema.ObjectSchema:
+		ps = st.Properties
+	case *j5schema.OneofSchema:
+		ps = st.Properties
+	}
+	if zz := ps.ByJSONName("zz"); zz != nil {
+		if ef, ok := zz.Schema.(*j5schema.EnumField); ok {
+			r.enum = ef.Schema().ToJ5Root().GetEnum()
+		}
 	}
 	return
 }
@@ -605,7 +626,7 @@ func runC04(cfg *vh.Config) error {
 	res := vh.NewResult("C04", cfg.Seed)
 	res.Rule = "objects of 2-7 properties over every field type (integer x4, string, bytes, bool, enum, key x5 formats with entity keys, float x2, date, decimal, timestamp, any, object (flatten), oneof), each plain / required / optional / array (rules, singleForm) / map, every validation rule absent / zero / boundary, both values of every boolean, list rules (filtering, default filters, sorting, default sort, searching), descriptions; non-trivial = distinct property declaration carrying at least one rule, flag, format or annotation"
 	cf := &vh.CasesFile{
-		Header: "From Coq Require Import String List NArith ZArith.\nFrom J5V.lib Require Import Outcome.\nFrom J5V.model Require Import RulesDecl RulesRead RulesReadCorr.",
+		Header: "From Coq Require Import String List NArith ZArith.\nFrom J5V.lib Require Import Outcome.\nFrom J5V.model Require Import RulesDecl RulesRead RulesEnum RulesReadCorr.",
 		Type:   "c04case",
 		Check:  "c04_check",
 	}
@@ -617,11 +638,22 @@ func runC04(cfg *vh.Config) error {
 	caseNo := 0
 	evals := 0
 	for u := 0; u < nObj; u++ {
+		env := genEnum(r)
+		kind := "object"
+		if r.Chance(15) {
+			kind = "oneof"
+		}
 		var props []genDecl
 		for i, n := 0, r.Range(2, 7); i < n; i++ {
-			gd := genProp04(r, fmt.Sprintf("f%d", i))
+			gd := genProp04(r, fmt.Sprintf("f%d", i), env)
 			if gd.Class == "compile-error" {
 				continue // compile failures are C12's stream
+			}
+			if gd.P.T.Kind == TEnum && env.Unspecified != "" && env.Unspecified != "UNSPECIFIED" && env.Unspecified != env.Prefix+"UNSPECIFIED" {
+				gd.P.T.Enum = nil // the odd-UNSPECIFIED finding (below) would spill into every name of in / not-in
+			}
+			if kind == "oneof" && (gd.P.PK != PSingle || gd.P.Opt) {
+				continue // members of a proto oneof are singular and have presence already
 			}
 			props = append(props, gd)
 		}
@@ -634,10 +666,10 @@ func runC04(cfg *vh.Config) error {
 			pl = append(pl, p.P)
 		}
 		pl = append(pl, sentinel)
-		src := File(theEnum, "Foo", objDesc, pl)
+		src := FileRoot(kind, env, "Foo", objDesc, pl)
 		c := compileUnit(src)
 		evals++
-		res.Count("object")
+		res.Count(kind)
 		var dterms []string
 		for _, p := range props {
 			dterms = append(dterms, p.P.Coq())
@@ -677,7 +709,7 @@ func runC04(cfg *vh.Config) error {
 				if i >= len(reflProps) {
 					break
 				}
-				ap, ok := propFromProto(theEnum, reflProps[i])
+				ap, ok := propFromProto(env, reflProps[i])
 				if !ok || len(reflProps[i].ProtoField) != 1 {
 					terms = append(terms, "None")
 					res.Count("reflected-unrepresentable")
@@ -687,9 +719,55 @@ func runC04(cfg *vh.Config) error {
 			}
 			refl = "(Ok [" + strings.Join(terms, ";") + "])"
 		}
-		cf.Terms = append(cf.Terms, fmt.Sprintf("C04Case %s [%s] [%s] %s", theEnum.Coq(), strings.Join(dterms, ";"), strings.Join(outs, ";"), refl))
+		cf.Terms = append(cf.Terms, fmt.Sprintf("C04Case %s [%s] [%s] %s", env.Coq(), strings.Join(dterms, ";"), strings.Join(outs, ";"), refl))
 		res.Cases = append(res.Cases, vh.CaseRec{Case: caseNo, Stream: "object", Input: input, Impl: map[string]any{"reflected": protoString(mem.obj), "error": fmt.Sprint(mem.err), "panic": fmt.Sprint(mem.panic)}})
 		res.Sample(map[string]any{"j5s": src, "reflected": protoString(mem.obj)}, 3)
+
+		// ---- the enum as a root schema: declared vs compiled vs reflected
+		ed := c.file.Enums().ByName(protoreflect.Name(env.Name))
+		if ed == nil {
+			res.Fail(vh.Failure{Case: caseNo, Stream: "enum", Sig: "C04 compiled file has no enum of the declared name", Clause: "for every object, oneof and enum", Input: input, Got: "missing"})
+		} else {
+			var vals []string
+			for i := 0; i < ed.Values().Len(); i++ {
+				v := ed.Values().Get(i)
+				vals = append(vals, fmt.Sprintf("(%s, (%d)%%Z, %s)", vh.BytesTerm(string(v.Name())), v.Number(), vh.BytesTerm(declaredComment(v))))
+			}
+			obsEnum := fmt.Sprintf("(EO %s [%s])", vh.BytesTerm(declaredComment(ed)), strings.Join(vals, ";"))
+			reflEnum := `(Err "reflect")`
+			if mem.panic != nil {
+				reflEnum = `(Panic "reflect")`
+			}
+			if mem.enum != nil {
+				var ros []string
+				for _, o := range mem.enum.Options {
+					ros = append(ros, fmt.Sprintf("(%s, (%d)%%Z, %s)", vh.BytesTerm(o.Name), o.Number, vh.BytesTerm(o.Description)))
+				}
+				reflEnum = fmt.Sprintf("(Ok (RE %s %s [%s]))", vh.BytesTerm(mem.enum.Description), vh.BytesTerm(mem.enum.Prefix), strings.Join(ros, ";"))
+				if mem.enum.Name != env.Name || len(mem.enum.Info) != 0 || optionInfo(mem.enum) {
+					reflEnum = `(Err "outside the model")`
+				}
+				// direct oracle: the declared enum
+				want := expectedEnum(env)
+				evals++
+				if !proto.Equal(want, mem.enum) {
+					sig := "C04 enum: reflected schema differs from the declared one at " + strings.Join(collapse(diffPaths(want, mem.enum), false), " ")
+					if env.Unspecified != "" && env.Unspecified != "UNSPECIFIED" && env.Unspecified != env.Prefix+"UNSPECIFIED" {
+						sig = "C04 enum whose explicit first option is another name ending in UNSPECIFIED: the reflected prefix and option names are derived from it"
+					}
+					res.Fail(vh.Failure{Case: caseNo, Stream: "enum", Sig: sig,
+						Clause: "for every object, oneof and enum: the schema the source declared", Input: map[string]any{"j5s": env.J5S()}, Got: protoString(mem.enum), Want: protoString(want)})
+				} else {
+					res.Count("enum-equal")
+				}
+				if txt.enum != nil && !proto.Equal(txt.enum, mem.enum) {
+					res.Fail(vh.Failure{Case: caseNo, Stream: "text", Sig: "C04 enum schema reflected from the printed .proto text differs from the in-memory one", Clause: "the same schema is obtained from the generated .proto text", Input: map[string]any{"j5s": env.J5S(), "proto": text}, Got: protoString(txt.enum), Want: protoString(mem.enum)})
+				}
+			}
+			cf.Terms = append(cf.Terms, fmt.Sprintf("C04Enum %s %s %s", env.DeclCoq(), obsEnum, reflEnum))
+			res.Cases = append(res.Cases, vh.CaseRec{Case: caseNo, Stream: "enum", Input: map[string]any{"j5s": env.J5S()}, Impl: map[string]any{"compiled": obsEnum, "reflected": protoString(mem.enum)}})
+			res.Count("enum")
+		}
 
 		// ---- direct oracle 1: declared vs reflected
 		switch {
@@ -701,6 +779,9 @@ func runC04(cfg *vh.Config) error {
 			res.Fail(vh.Failure{Case: caseNo, Stream: "reflect", Sig: "C04 reflecting the compiled object fails: " + firstWords(mem.err.Error(), 8), Clause: "reflection yields the declared schema", Input: input, Got: mem.err.Error()})
 		default:
 			res.Count("reflected")
+			if mem.isOneof != (kind == "oneof") {
+				res.Fail(vh.Failure{Case: caseNo, Stream: "reflect", Sig: "C04 root schema kind differs (object vs oneof)", Clause: "for every object, oneof and enum", Input: input, Got: protoString(mem.obj)})
+			}
 			if mem.obj.Name != "Foo" || mem.obj.Description != cleanDesc(objDesc) {
 				res.Fail(vh.Failure{Case: caseNo, Stream: "reflect", Sig: "C04 object name/description differs", Clause: "descriptions", Input: input, Got: protoString(mem.obj)})
 			}
@@ -712,7 +793,7 @@ func runC04(cfg *vh.Config) error {
 					break
 				}
 				evals++
-				want := normProp(theEnum, p.P).toProto(theEnum, int32(i+1))
+				want := normProp(env, p.P).toProto(env, int32(i+1))
 				if proto.Equal(want, reflProps[i]) {
 					res.Count("property-equal")
 					continue
@@ -725,7 +806,7 @@ func runC04(cfg *vh.Config) error {
 					sig = csig
 				}
 				res.Fail(vh.Failure{Case: caseNo, Stream: "reflect", Sig: sig,
-					Clause: "reflection yields the declared schema", Input: map[string]any{"j5s": p.P.J5S(theEnum), "object": src},
+					Clause: "reflection yields the declared schema", Input: map[string]any{"j5s": p.P.J5S(env), "object": src},
 					Got: protoString(reflProps[i]), Want: protoString(want)})
 			}
 		}
@@ -833,4 +914,27 @@ func allUnder(paths, prefixes []string) bool {
 		}
 	}
 	return len(paths) > 0
+}
+
+func optionInfo(e *schema_j5pb.Enum) bool {
+	for _, o := range e.Options {
+		if len(o.Info) != 0 {
+			return true
+		}
+	}
+	return false
+}
+
+// expectedEnum: the schema_j5pb.Enum a declaration denotes (mirrors norm_enum)
+func expectedEnum(env EnumEnv) *schema_j5pb.Enum {
+	out := &schema_j5pb.Enum{Name: env.Name, Description: cleanDesc(env.Desc), Prefix: env.Prefix}
+	out.Options = append(out.Options, &schema_j5pb.Enum_Option{Name: "UNSPECIFIED", Number: 0, Description: cleanDesc(env.UnspecDesc)})
+	for i, o := range env.Options {
+		d := ""
+		if i < len(env.OptDescs) {
+			d = env.OptDescs[i]
+		}
+		out.Options = append(out.Options, &schema_j5pb.Enum_Option{Name: strings.TrimPrefix(o, env.Prefix), Number: int32(i + 1), Description: cleanDesc(d)})
+	}
+	return out
 }
